@@ -134,6 +134,13 @@ func GetNspatialIdsAroundVoxcels(spatialIDs []string, hLayers, vLayers int64) ([
 		return nil, fmt.Errorf("both hLayers and vLayers parameters must be >= 0")
 	}
 
+	// invalid input validation (every ID must be a well-formed extended spatial ID)
+	for _, spatialID := range spatialIDs {
+		if _, err := object.NewExtendedSpatialID(spatialID); err != nil {
+			return nil, err
+		}
+	}
+
 	hExpandParam := hLayers * 2
 	vExpandParam := vLayers * 2
 
